@@ -306,7 +306,14 @@ func runC05(ctx *Ctx) {
 				copy(autn[0:6], x.sqnak)
 				autn[6] = 0x80
 				cs += fmt.Sprintf(" [K=%x OP=%x RAND=%x SQNxorAK=%x PLMN=%s/%s opOnly=%v]", x.k[:2], x.op[:2], x.rand[:2], x.sqnak, x.plmn[0], x.plmn[1], x.opOnly)
-				want := refcrypto.Derive5G(x.k, opc, x.rand, x.sqnak, x.plmn[0], x.plmn[1], supiDigits, 2, 2)
+				// the other inputs of the derivation live in the context and change between the runs too: the SUPI (K_AMF) and
+				// the selected algorithms (K_NAS) - also between two runs with the very same challenge
+				stepSupi := []string{supiDigits, "999990123456789", supiDigits}[step%3]
+				stepAlg := [][2]int{{2, 2}, {1, 2}, {2, 1}}[step%3]
+				ue.Supi = "imsi-" + stepSupi
+				ue.CipheringAlg, ue.IntegrityAlg = uint8(stepAlg[0]), uint8(stepAlg[1])
+				cs += fmt.Sprintf("(supi %s nea%d nia%d)", stepSupi, byte(stepAlg[0]), byte(stepAlg[1]))
+				want := refcrypto.Derive5G(x.k, opc, x.rand, x.sqnak, x.plmn[0], x.plmn[1], stepSupi, byte(stepAlg[0]), byte(stepAlg[1]))
 				var res []byte
 				if perr := recoverErr(func() {
 					res = ue.DeriveRESstarAndSetKey(subs, autn, append([]byte{}, x.rand...), refcrypto.SNName(x.plmn[0], x.plmn[1]), x.plmn[1], x.plmn[0])
